@@ -13,13 +13,15 @@ func init() {
 		ID:    "C13",
 		Level: "other",
 		Run:   c13,
-		Explanation: "Structural necessary conditions of the halt-lock protocol, decided on every path of the anchored functions. Primary side: the guard set obtained from AcquireWriteLock is the one pinned in DB.haltLockAndGuard (so no local commit or checkpoint can take the write lock while the halt lock is granted), recovery precedes reading the position handed to the replica, the expiry is now+HaltLockTTL, every failure exit releases the set and the success exit does not; the same-id test runs inside the retry loop of AcquireWriteLock (callback invoked before every attempt) and returns a copy of the granted lock; release and expiry clear the reference by identity and then unlock exactly the stored set, and only for the matching id / an expired lock; the monitor that enforces expiry is started by Store.Open. Replica side (shared remote-halt family): reference stored only after the grant, cleared on every failed acquisition, on release (before the primary is told) and when a frame from the primary arrives; WaitPosExact returns nil only when TXID and checksum both equal the granted position. Forwarding: in CommitWAL, CommitJournal and Drop the forwarded commit precedes the local rename, its error prevents the rename, and the lock id sent is the held one; the primary's /tx handler applies a forwarded file only under DB.HoldsHaltLock(id from the request), whose definition compares with the currently granted id; the client sends that id under the query key the handler reads. Stream: a frame produced by this node is verified and discarded, never applied. The FUSE lock file: the handle acquires and releases with one stable id assigned at creation, only for the HALT byte and a write lock, records the lock returned, releases on unlock and on close of the file. The expiry sweep visits every database unconditionally; an own frame's chunked body is drained before the frame counts as processed.",
+		Explanation: "Structural necessary conditions of the halt-lock protocol, decided on every path of the anchored functions. Primary side: the guard set obtained from AcquireWriteLock is the one pinned in DB.haltLockAndGuard (so no local commit or checkpoint can take the write lock while the halt lock is granted), recovery precedes reading the position handed to the replica, the expiry is now+HaltLockTTL, every failure exit releases the set and the success exit does not; the same-id test runs inside the retry loop of AcquireWriteLock (callback invoked before every attempt) and returns a copy of the granted lock; release and expiry clear the reference by identity and then unlock exactly the stored set, and only for the matching id / an expired lock; the monitor that enforces expiry is started by Store.Open. Replica side (shared remote-halt family): reference stored only after the grant, cleared on every failed acquisition, on release (before the primary is told) and when a frame from the primary arrives; WaitPosExact returns nil only when TXID and checksum both equal the granted position. Forwarding: in CommitWAL, CommitJournal and Drop the forwarded commit precedes the local rename, its error prevents the rename, and the lock id sent is the held one; the primary's /tx handler copies and applies a forwarded file only after DB.PinHaltLock(id from the request) returned a release function, which it merely defers; PinHaltLock answers non-nil only for the granted id and after re-loading the reference under the shared pin, release takes the pin exclusively first and expiry skips a pinned lock; the client sends that id under the query key the handler reads. Stream: a frame produced by this node is verified and discarded, never applied. The FUSE lock file: the handle acquires and releases with one stable id assigned at creation, only for the HALT byte and a write lock, records the lock returned, releases on unlock and on close of the file. The expiry sweep visits every database unconditionally; an own frame's chunked body is drained before the frame counts as processed.",
 		NotDecided: "histories: lost or repeated responses, expiry racing a forwarded commit (the TODO 'prevent halt lock release during copy & apply' is a real window: see DESIGN.md), convergence of third replicas, primary change while a halt is held.",
 		Assumptions: []string{"go/ssa faithfully represents the source", "C11 (AcquireWriteLock yields the full write lock set)", "C12 (guards are reader/writer locks)"},
 	})
 }
 
 func c13(c *Ctx) {
+	c.forwardedExtends("forwarded")
+	c.primaryOnlyHandlers("primary-only")
 	p := c.P
 	ah := "litefs.(*DB).AcquireHaltLock"
 	field := p.Writes("litefs.DB.haltLockAndGuard")
@@ -199,7 +201,7 @@ func c13(c *Ctx) {
 		if r.short == "release" {
 			c.Before("release/waits-for-pin", r.fn, Any(cas, un), p.CallWhere("sync.(*RWMutex).Lock", "^"+pat("sync.(*RWMutex).Lock(&"+loaded+".pin)")+"$"), 2, "release takes the pin exclusively before it clears the reference and unlocks the set: it waits for an in-flight commit of the holder", "a release that overtakes the holder's own slow commit frees the write lock while that commit is still going to be applied")
 		}
-		c.Before(r.short+"/clear-before-unlock", r.fn, un, cas, 1, r.short+": the reference is cleared before the write lock is released", "a local writer that gets the write lock while HoldsHaltLock still answers true races a forwarded commit")
+		c.Before(r.short+"/clear-before-unlock", r.fn, un, cas, 1, r.short+": the reference is cleared before the write lock is released", "a local writer that gets the write lock while the reference still names the lock races a forwarded commit")
 	}
 	c.OnlyGuards("expiry/unconditional-sweep", "litefs.(*Store).EnforceHaltLockExpiration", p.Calls("litefs.(*DB).EnforceHaltLockExpiration"), gs(G(`rangeok\(.*\)`, true), G(`\(.* < builtin\.len\(.*\)\)`, true)), 1, "the sweep visits the databases under no condition other than the iteration itself (in particular not 'only while primary')", "a lock granted before a demotion must still expire: its guards pin the write lock and block role-change recovery for ever")
 	c.OnlyIn("expiry/monitor-calls", p.Calls("litefs.(*Store).EnforceHaltLockExpiration"), []string{pat("litefs.(*Store).monitorHaltLock")}, 1, "Store.EnforceHaltLockExpiration is driven by monitorHaltLock", "")
@@ -374,6 +376,11 @@ func c13(c *Ctx) {
 	c.Before("skip-own/unset-before-position-check", pf, p.PlainCalls("litefs.(*DB).Pos"), p.PlainCalls("litefs.(*DB).RemoteHaltLock"), 1,
 		"a stale remote halt lock is examined (and cleared) before the frame's position is compared", "recovery on unset can move the position")
 	c.Guarded("skip-own/unset-guarded", pf, p.PlainCalls("litefs.(*DB).unsetRemoteHaltLock"), gs(GP("(litefs.(*DB).RemoteHaltLock(@@) == nil)", false)), 1, "the halt lock is cleared only when one is held", "")
+	c.OnlyGuards("skip-own/unset-on-every-foreign-frame", pf, p.PlainCalls("litefs.(*DB).unsetRemoteHaltLock"), gs(
+		GP("(litefs.(*Store).CreateDBIfNotExists(p0, p2.Name)#1 == nil)", true), GP("(ltx.DecodeHeader(p3)#2 == nil)", true), GP("(litefs.(*DB).AcquireWriteLock(@@)#1 == nil)", true),
+		G(pat("(litefs.(*Store).ID(p0) == ltx.DecodeHeader(p3)#0.NodeID)")+"|"+pat("(ltx.DecodeHeader(p3)#0.NodeID == litefs.(*Store).ID(p0))"), false),
+		G(pat("(litefs.(*DB).RemoteHaltLock(@@) == nil)")+"|"+pat("(nil == litefs.(*DB).RemoteHaltLock(@@))"), false),
+	), 1, "a held remote halt lock is cleared by every frame from another node - under no further condition on the frame (a snapshot has min TXID 1)", "a stale lock that survives a frame keeps the replica writable although the primary has moved on")
 	c.ExpectAll("skip-own/unset-id", c.CallArgs(pf, p.PlainCalls("litefs.(*DB).unsetRemoteHaltLock"), 2), pat("litefs.(*DB).RemoteHaltLock(@@).ID"), 1, "the id cleared is the held lock's", "")
 	c.ErrHandled("skip-own/unset-error", pf, p.PlainCalls("litefs.(*DB).unsetRemoteHaltLock"), p.PlainCalls("litefs.OS.Rename"), 1, "a failed unset stops the frame", "")
 
@@ -541,6 +548,28 @@ func (c *Ctx) pinHeldUntilReturn(key, fname, pinFn string, protected IM) {
 	if f := s.Run(); f != nil {
 		c.fail(key, rule, desc, why, fmt.Sprintf("%s reachable before the release function is deferred; path %s", c.where(f.Instr), c.P.TraceString(f.Trace)), 1)
 		return
+	}
+	// once the pin is held (release function non-nil) no exit may be reached before the defer is registered
+	for _, b := range fn.Blocks {
+		if len(b.Instrs) == 0 {
+			continue
+		}
+		iff, ok := b.Instrs[len(b.Instrs)-1].(*ssa.If)
+		if !ok {
+			continue
+		}
+		bo, ok := iff.Cond.(*ssa.BinOp)
+		if !ok || !(bo.X == v && isNilConst(bo.Y) || bo.Y == v && isNilConst(bo.X)) {
+			continue
+		}
+		held := b.Succs[1] // == nil is false
+		if bo.Op == token.NEQ {
+			held = b.Succs[0]
+		}
+		if f := (&Search{P: c.P, Fn: fn, Avoid: isDefer, Tgt: IsReturn}).runFromBlock(held); f != nil {
+			c.fail(key, rule, desc, why, fmt.Sprintf("with the pin held, the exit at %s is reachable before the release function is deferred (the pin leaks: release and expiry block for ever); path %s", c.where(f.Instr), c.P.TraceString(f.Trace)), 1)
+			return
+		}
 	}
 	if len(Instrs(fn, protected)) < 2 {
 		c.fail(key, rule, desc, why, "fewer than 2 protected calls matched", 0)
